@@ -934,6 +934,10 @@ class Rewriter:
                     parts.append('&(%s).vx_pad2()' % v)
                 elif kind == 'pad3':
                     parts.append('&(%s).vx_pad3()' % v)
+                elif kind == 'opaque' and re.match(r'^:[0-9A-Za-z][<>][0-9]+$', v[0]):
+                    # `{:C<N}` / `{:C>N}` of a string: padded with the fill character up to N characters
+                    fill, dirn, width = v[0][1], v[0][2], v[0][3:]
+                    parts.append("&vx::str_pad(&(%s).vx_string(), '%s', %s, %s)" % (v[1], fill, 'true' if dirn == '<' else 'false', width))
                 elif kind == 'opaque':
                     parts.append('&vx::fmt_opaque("%s", &(%s))' % v)
                 else:
